@@ -233,7 +233,9 @@ func (h *Handler) Handle(req, resp dhcpv6.DHCPv6) (dhcpv6.DHCPv6, bool) {
 			}
 
 			addPrefix(iapdResp, l)
-			newLeases = append(knownLeases, l)
+			// accumulate: several new leases may be created for one IA_PD
+			knownLeases = append(knownLeases, l)
+			newLeases = knownLeases
 			log.Debugf("Allocated %s to %s (IAID: %x)", &allocated, client, iapd.IaId)
 		}
 
